@@ -1,7 +1,7 @@
 """Per-property checks.  Each takes a Ctx (harness built from the working tree, tables exported,
 spec copied into the scratch directory) and returns the exit code."""
 import glob, json, os, random, shutil, subprocess, sys, tempfile
-from .core import Ctx, Infra, finish, log, sessions, VERIF, REPO, TLA_CP, GOENV, NCPU
+from .core import Ctx, Infra, finish, log, sessions, large_inputs, VERIF, REPO, TLA_CP, GOENV, NCPU
 
 Q = lambda s: '"%s"' % s  # TLA+ string constant
 
@@ -167,6 +167,7 @@ def tree_family(ctx, relevant, flavor, rule):
     if ctx.model_violation and not [m for m in ctx.mismatches if m["what"] in relevant]:
         raise Infra("model-level invariant %s failed but the real code agrees with the model's predictions: specification problem" % ctx.model_violation)
     sessions(ctx)
+    large_inputs(ctx)
     return finish(ctx, relevant=relevant, rule=rule)
 
 
@@ -227,6 +228,7 @@ def c07(ctx):
     ctx.drive("trace", "sat", 1200 if thorough else 300, leaves=6)
     ctx.validate_trace("trace")
     sessions(ctx)
+    large_inputs(ctx)
     return finish(ctx, relevant={"verdict", "non-monotone", "verdict-depends-on-list-form"},
                   rule="every non-empty sub-list of the allowed universe in every order, with one entry duplicated and one (thorough: two) "
                        "entries re-spelled (case of listed ids, blanks, one/two pairs of parentheses): the model proves the list denotes the "
@@ -258,6 +260,7 @@ def c10(ctx):
     ctx.drive("trace", "sat", 1200 if thorough else 300, leaves=10)
     ctx.validate_trace("trace")
     sessions(ctx)
+    large_inputs(ctx)
     return finish(ctx, relevant={"verdict", "extract-invented", "extract-missing", "extract-duplicate", "extract-error", "non-monotone"},
                   rule="every tree up to 3 leaves x every chain of rewrites (commute, re-associate, idempotence, absorption, distribution both "
                        "ways) applied at any node x 3 renderings (minimal/full parentheses, widened blanks) x all allowed subsets: the real "
@@ -414,6 +417,7 @@ def c02(ctx):
         if set(viol) - {"PlusNatural"} and not [m for m in ctx.mismatches if m["what"] in ("match", "verdict")]:
             raise Infra("model-level invariants %s failed but the real code agrees with the model's predictions" % viol)
     sessions(ctx)
+    large_inputs(ctx)
     return finish(ctx, relevant={"match", "verdict"},
                   rule="ordered pairs of single-term texts built from the shipped tables (every table family and natural family x spellings x "
                        "exceptions, cross pairs of listed ids, LicenseRefs); TLC: operational matcher = C02's rule, symmetry, reflexivity, "
@@ -428,6 +432,7 @@ def c11(ctx):
     ctx.drive("trace", "single", 1200 if ctx.tier == "thorough" else 300)
     ctx.validate_trace("trace")
     sessions(ctx)
+    large_inputs(ctx)
     return finish(ctx, relevant={"plus-natural-order", "plus-natural-order-duplicate-position", "match-duplicate-position",
                                  "verdict-duplicate-position", "verdict", "match", "table-Listed", "table-OnePosition", "table-OneShape",
                                  "table-Ascending", "table-Complete", "table-Disjoint"},
@@ -501,6 +506,7 @@ def c08(ctx):
     if viol and not [m for m in ctx.mismatches if m["what"] in rel_whats]:
         raise Infra("model-level invariants %s failed but no disagreement was reproduced on the real code" % viol)
     sessions(ctx)
+    large_inputs(ctx)
     return finish(ctx, relevant=rel_whats,
                   rule="listed ids x {X ~ X-only, X+ ~ X-or-later} x contexts (expression side / allowed side against family members with and "
                        "without '+', none/same/other exception, six syntactic contexts); TLC: the model predicts identical results for both "
@@ -555,6 +561,7 @@ def c09(ctx):
         if not [m for m in ctx.mismatches if m["what"] in rel]:
             raise Infra("model-level invariants %s failed but no disagreement was reproduced on the real code" % viol)
     sessions(ctx)
+    large_inputs(ctx)
     return finish(ctx, relevant=rel,
                   rule="listed license and exception ids x {lower, upper, alternating} case x {alone, in a 3-term expression, as allowed entry, "
                        "after WITH}; TLC: the scanner model yields the same token for every variant, lists are fold-unique; real code: validity, "
@@ -752,6 +759,7 @@ def c12(ctx):
     if viol and not [m for m in ctx.mismatches if m["what"] in rel]:
         raise Infra("model-level invariant %s failed but nothing was reproduced on real data" % viol)
     sessions(ctx)
+    large_inputs(ctx)
     return finish(ctx, relevant=rel,
                   rule="one TLC state per listed id (the lists read through the real package) + six whole-list clauses against cmd/*.json "
                        "read by TLC and Gen.tla's rendering of the three files; the real generator is run and its bytes compared; every id is "
@@ -1026,6 +1034,7 @@ def c15(ctx):
     ctx.drive("trace", "invalid", 1500 if thorough else 400, leaves=6)
     ctx.validate_trace("trace")
     sessions(ctx)
+    large_inputs(ctx)
     return finish(ctx, relevant={"offset", "lexeme", "offset-no-error"},
                   rule="valid prefixes (with -or-later forms, '+', spaces, parentheses) x every lexeme sequence up to the bound ending in an "
                        "unknown id, a Ref prefix without a name or a foreign byte; the model scanner's caller-relative position and lexeme "
@@ -1119,6 +1128,7 @@ def c04(ctx):
     ctx.drive("trace", "lists", 1000 if thorough else 300, leaves=5)
     ctx.validate_trace("trace")
     sessions(ctx)
+    large_inputs(ctx)
     return finish(ctx, relevant=C04_WHATS,
                   rule="every list up to the bound over a 13-string pool as ValidateLicenses argument and as allowed list of three expressions; "
                        "every lexeme text and token sequence as single argument of all three entry points (agreement on validity, result "
@@ -1147,6 +1157,7 @@ def c03(ctx):
     ctx.drive("trace", "invalid", 2000 if thorough else 500, leaves=8)
     ctx.validate_trace("trace")
     sessions(ctx)
+    large_inputs(ctx)
     return finish(ctx, relevant={"panic"},
                   rule="all token-class sequences, lexeme texts (incl. foreign bytes, truncated Ref prefixes), expression trees x allowed "
                        "subsets and argument lists the model enumerates, each run through all three exported functions under recover(); "
@@ -1178,6 +1189,7 @@ def c05(ctx):
     ctx.drive("trace", "invalid", 600 if thorough else 250, leaves=6)
     ctx.validate_trace("trace")
     sessions(ctx)
+    large_inputs(ctx)
     return finish(ctx, relevant={"validity"},
                   rule="every token-class sequence up to the bound (TLC: descent vs reference grammar, scanner round trip; real code: "
                        "ValidateLicenses/ExtractLicenses/Satisfies on 4 renderings of each) + mutated valid expressions trace-validated; "
